@@ -7,6 +7,47 @@ use serde_json::{json, Value};
 use std::cell::RefCell;
 use std::panic::{catch_unwind, AssertUnwindSafe};
 
+/// hang detection: the time the current guarded call into the crate started (0 = none), and the
+/// case being run, for the watchdog thread started by `start_watchdog`
+pub static GUARD_START_MS: std::sync::atomic::AtomicU64 = std::sync::atomic::AtomicU64::new(0);
+pub static CURRENT_CASE: std::sync::Mutex<String> = std::sync::Mutex::new(String::new());
+
+pub fn set_current(case: &Value) {
+    if let Ok(mut c) = CURRENT_CASE.lock() {
+        *c = case.to_string();
+    }
+}
+
+fn now_ms() -> u64 {
+    std::time::SystemTime::now().duration_since(std::time::UNIX_EPOCH).map(|d| d.as_millis() as u64).unwrap_or(1)
+}
+
+/// a call into the crate that does not return within `limit_s` seconds is reported as a hang:
+/// the watchdog writes a result file with one property difference (the current case is the
+/// replay) and ends the process with status 3
+pub fn start_watchdog(limit_s: u64, property: String, out_file: String) {
+    std::thread::spawn(move || loop {
+        std::thread::sleep(std::time::Duration::from_millis(500));
+        let st = GUARD_START_MS.load(std::sync::atomic::Ordering::SeqCst);
+        if st != 0 && now_ms().saturating_sub(st) > limit_s * 1000 {
+            let case: Value = CURRENT_CASE.lock().ok().and_then(|c| serde_json::from_str(&c).ok()).unwrap_or(Value::Null);
+            let res = json!({
+                "property": property, "tier": "?", "seed": 0, "evaluations": 1, "distinct_nontrivial": 0, "rule": "aborted by the hang watchdog",
+                "diffs": [{"kind": "property", "entry": "(call into the crate)", "signature": "hang:call-did-not-return", "case": case,
+                           "detail": {"limit_s": limit_s}}],
+                "diff_counts": {"property": 1}, "histogram": {}, "samples": [case], "notes": ["hang watchdog fired"], "exhaustive": false,
+                "wall_s": 0.0, "driver_requests": 0,
+            });
+            if !out_file.is_empty() {
+                let _ = std::fs::write(&out_file, serde_json::to_string_pretty(&res).unwrap());
+            } else {
+                println!("{}", res);
+            }
+            std::process::exit(3);
+        }
+    });
+}
+
 thread_local! {
     static LAST_PANIC: RefCell<String> = RefCell::new(String::new());
     static IN_GUARD: RefCell<bool> = RefCell::new(false);
@@ -103,7 +144,9 @@ pub fn err_class(e: &Error) -> &'static str {
 pub fn guard<T>(f: impl FnOnce() -> Result<T, Error>) -> Out<T> {
     LAST_PANIC.with(|p| p.borrow_mut().clear());
     IN_GUARD.with(|g| *g.borrow_mut() = true);
+    GUARD_START_MS.store(now_ms(), std::sync::atomic::Ordering::SeqCst);
     let r = catch_unwind(AssertUnwindSafe(f));
+    GUARD_START_MS.store(0, std::sync::atomic::Ordering::SeqCst);
     IN_GUARD.with(|g| *g.borrow_mut() = false);
     match r {
         Ok(Ok(t)) => Out::Ok(t),
@@ -115,7 +158,9 @@ pub fn guard<T>(f: impl FnOnce() -> Result<T, Error>) -> Out<T> {
 pub fn guard_plain<T>(f: impl FnOnce() -> T) -> Out<T> {
     LAST_PANIC.with(|p| p.borrow_mut().clear());
     IN_GUARD.with(|g| *g.borrow_mut() = true);
+    GUARD_START_MS.store(now_ms(), std::sync::atomic::Ordering::SeqCst);
     let r = catch_unwind(AssertUnwindSafe(f));
+    GUARD_START_MS.store(0, std::sync::atomic::Ordering::SeqCst);
     IN_GUARD.with(|g| *g.borrow_mut() = false);
     match r {
         Ok(t) => Out::Ok(t),
